@@ -331,6 +331,11 @@ fn main() {
               l.inconclusive(format!("score oracle: {e}"));
             }
           }
+          Ok(plan) if !plan.leaves.is_empty() && plan.leaves.iter().all(|lf| lf.is_empty()) && !plan.notes.custom_nodes => {
+            // every scored term vanished in analysis / expansion: whether such a query scores 0 or counts
+            // as a query without scoring clause (1.0) is not documented
+            l.count("score_requests_without_surviving_scored_term(not judged)", 1);
+          }
           Ok(plan) => {
             l.eval();
             judged_scores = true;
@@ -364,6 +369,9 @@ fn main() {
                 }
                 if let Ok(p2) = scoring::plan(&built, &query, req.get("fields"), q) {
                   let o2 = score_pass(&built, &p2, &hits);
+                  if std::env::var("C10_DEBUG").is_ok() {
+                    eprintln!("model {name}: compared={} undefined={} mismatches={:?}", o2.compared, o2.undefined, o2.mismatches.iter().take(3).collect::<Vec<_>>());
+                  }
                   if o2.mismatches.is_empty() && o2.compared > 0 {
                     sig = Some(name.to_string());
                     break;
